@@ -109,8 +109,34 @@ def fold_atoms(base: Alphabet, kinds: set) -> list:
     return atoms
 
 
-def build_alphabet(patterns: list[tuple[str, int]], extra_chars: str, fold_kinds: set | None = None, char_sets: list | None = None) -> Alphabet:
+CHAR_PREDICATES = ("isalpha", "isalnum", "isdigit", "isdecimal", "isnumeric", "isupper_char", "islower_char")
+_PRED_CACHE: dict = {}
+
+
+def predicate_intervals(name: str) -> list:
+    """Code points c with ``chr(c).<name>()`` true, as intervals - str.isalpha() & co. are 'non-empty and every
+    character satisfies the predicate', so the per-character sets are all that is needed (taken from the str type of
+    the interpreter that runs the check, like the whitespace and case-folding tables)."""
+    if name in _PRED_CACHE:
+        return _PRED_CACHE[name]
+    f = getattr(str, name)
+    out: list = []
+    for cp in range(0x110000):
+        if 0xD800 <= cp <= 0xDFFF:
+            continue
+        if f(chr(cp)):
+            if out and out[-1][1] == cp - 1:
+                out[-1] = (out[-1][0], cp)
+            else:
+                out.append((cp, cp))
+    _PRED_CACHE[name] = out
+    return out
+
+
+def build_alphabet(patterns: list[tuple[str, int]], extra_chars: str, fold_kinds: set | None = None, char_sets: list | None = None, pred_kinds: set | None = None) -> Alphabet:
     atoms: list = []
+    for pk in sorted(pred_kinds or ()):
+        atoms.append(predicate_intervals(pk))
     for p, fl in patterns:
         collect_atoms(P.parse(p, fl), atoms)
     for ch in extra_chars:
@@ -855,6 +881,11 @@ class StrLang:
                     return self.lift(inter(self.BLANK, L.nonempty()), v)
                 if f.attr == "isascii" and not e.args:
                     return self.lift(L.star(self.alpha.classes_of_intervals([(0, 127)])), v)
+                if f.attr in ("isalpha", "isalnum", "isdigit", "isdecimal", "isnumeric") and not e.args:
+                    if f.attr not in getattr(self, "pred_kinds", ()):
+                        raise Unsupported(f"str.{f.attr}() (not among the alphabet's atoms)")
+                    cls = self.alpha.classes_of_intervals(predicate_intervals(f.attr))
+                    return self.lift(inter(L.star(cls), L.nonempty()), v)  # non-empty, every character of that kind
                 if f.attr == "startswith" and len(e.args) == 1:
                     return self.lift(L.startswith(self._const_str(e.args[0])), v)
                 if f.attr == "endswith" and len(e.args) == 1:
